@@ -38,7 +38,16 @@ func ruleC07ScopeArg(c *Ctx) {
 		var why []string
 		n := 0
 		for _, p := range paths {
-			if p.Exit != "return" || len(p.Ret) != 2 || !p.Ret[1].Nil {
+			if p.Exit != "return" || len(p.Ret) != 2 {
+				continue
+			}
+			// a success path: the error result is nil, or both results are handed on from one call (`return q.run()`:
+			// the value is that call's value whenever it succeeds)
+			forwards := false
+			if x0, x1 := p.Ret[0].T, p.Ret[1].T; x0 != nil && x1 != nil && x0.Op == "ext" && x1.Op == "ext" && x0.Name == "0" && x1.Name == "1" && x0.Args[0].V != nil && x0.Args[0].V == x1.Args[0].V {
+				forwards = true
+			}
+			if !p.Ret[1].Nil && !forwards {
 				continue
 			}
 			n++
